@@ -130,4 +130,53 @@ theorem meta_valid_eq (e : ExtGeom) (img : Img) (c : Cls)
 
 
 
+/-! ### `get_meta`, the whole method -/
+
+/-- the method is its glue (absent key, constants, `meta_valid`) around the index block -/
+theorem get_meta_unfold (ishape eshape : List Nat) (sd : Nat) (mns : Option Nat) (al : Bool) (vals : List α) (c : Cls)
+    (idx : List Nat) :
+    Py.get_meta ishape eshape (some sd) mns al vals (some c) (some idx) =
+      (if (c == gconst) = true then pure vals.head?
+       else do
+        let v ← Py.meta_valid ishape eshape (some sd) mns al c
+        if (!v) = true then pure none else Py.get_meta_index ishape sd c vals idx) := by
+  unfold Py.get_meta Py.get_meta_index
+  by_cases hc : (c == gconst) = true
+  · simp [hc]
+  · simp only [hc, if_false]
+    rfl
+
+/-- **`get_meta` as written in dcmmeta.py is the model's `getMeta`**: an absent key and a classification that is not valid for the
+    image give the default, a constant its value whatever the index, every other key the value at the position the index
+    arithmetic of its classification computes — or IndexError for an index of the wrong length or out of bounds -/
+theorem get_meta_eq (e : ExtGeom) (shape : List Nat) (sd : Nat) (al : Bool) (ks : KeyState α) (index : Option (List Nat))
+    (h3 : 3 ≤ shape.length) (h5 : shape.length ≤ 5) (hsd3 : sd < 3)
+    (hesd : ∀ d, e.sliceDim = some d → d < e.shape.length)
+    (h4 : ∀ c v, ks = some (c, v) → c = vslices → 3 < e.shape.length ∧ 3 < shape.length) :
+    toGetOut (Py.get_meta shape e.shape (some sd) (e.sliceDim.map fun d => e.shape[d]!) al
+        (match ks with | some (_, v) => v | none => []) (ks.map (·.1)) index) =
+      getMeta e ⟨shape, some sd, al⟩ ks index := by
+  cases ks with
+  | none => cases index <;> rfl
+  | some cv =>
+    obtain ⟨c, vals⟩ := cv
+    have hmv := meta_valid_eq e ⟨shape, some sd, al⟩ c (by intro d hd; simp at hd; show d < shape.length; omega) hesd (h4 c vals rfl)
+    simp only [Option.map_some]
+    by_cases hc : c = gconst
+    · subst hc
+      cases index <;> (simp [Py.get_meta, getMeta, toGetOut]; cases vals.head? <;> rfl)
+    · have hcb : (c == gconst) = false := by simpa using hc
+      cases index with
+      | none =>
+        simp only [Py.get_meta, getMeta, hc, hcb, if_false, Bool.false_eq_true, hmv, ok_bind']
+        cases metaValid e ⟨shape, some sd, al⟩ c <;> rfl
+      | some idx =>
+        rw [get_meta_unfold]
+        simp only [hcb, Bool.false_eq_true, if_false, hmv, ok_bind']
+        cases hv : metaValid e ⟨shape, some sd, al⟩ c
+        · simp [getMeta, hc, hv, toGetOut]
+          rfl
+        · simp only [Bool.not_true, Bool.false_eq_true, if_false]
+          exact get_meta_index_eq shape idx sd al e c vals h3 h5 hsd3 hc hv
+
 end Src
